@@ -46,6 +46,8 @@ def run(chk):
     r5_running_max(chk, repo)
     r6_split_protocol(chk, repo)
     r7_presence_tests(chk, repo)
+    from ..rules import dropped_parameters
+    dropped_parameters(chk, repo, "C07.R8", [CHUNK])
 
 
 def _mentions_len_of_element(f, text):
